@@ -71,7 +71,9 @@ impl RefCfb8 {
 }
 
 #[derive(Clone)]
-enum Op { Write(Vec<u8>, Vec<W>), Switch(Vec<u8>), Read(Vec<R>, bool) }
+enum Op { Write(Vec<u8>, Vec<W>), Switch(Vec<u8>), Read(Vec<R>, bool),
+    /// the same bytes handed over as several slices through `write_vectored`, one byte accepted per poll
+    WriteV(Vec<Vec<u8>>, Vec<W>) }
 
 fn gen_wsched(rng: &mut Rng, len: usize) -> Vec<W> {
     let style = rng.below(5);
@@ -126,6 +128,26 @@ fn run_session(ops: &[Op]) -> (String, String, Option<String>) {
                 req.push(format!("w {} {}", hex(plain), sch.iter().map(|w| match w { W::Pending => "p".to_string(), W::Accept(n) => format!("a{n}") }).collect::<Vec<_>>().join(" ")).trim_end().to_string());
                 obs.push(format!("w:{written}:{}", hex(&accepted)));
             }
+            Op::WriteV(parts, sch) => {
+                let plain: Vec<u8> = parts.concat();
+                { let mut s = shared.lock().unwrap(); s.wsched = sch.iter().cloned().collect(); s.accepted.clear(); }
+                let counter = Arc::new(Mutex::new(0usize));
+                {
+                    let c2 = counter.clone();
+                    let mut cw = CountingWriter { inner: &mut stream, n: c2 };
+                    let sh = shared.clone();
+                    let _ = drive(write_all_vectored(&mut cw, parts), move || !sh.lock().unwrap().wsched.is_empty());
+                }
+                let written = *counter.lock().unwrap();
+                let accepted = shared.lock().unwrap().accepted.clone();
+                let expect = match renc.as_mut() { Some(c) => c.enc(&plain[..written]), None => plain[..written].to_vec() };
+                if accepted != expect {
+                    why.push(format!("vectored write of {} slices ({}B): transport accepted {} but one continuous stream of the {} bytes reported written is {}", parts.len(), plain.len(), hex(&accepted), written, hex(&expect)));
+                }
+                // one byte per poll: the same transcript as a plain write under this schedule
+                req.push(format!("w {} {}", hex(&plain), sch.iter().map(|w| match w { W::Pending => "p".to_string(), W::Accept(n) => format!("a{n}") }).collect::<Vec<_>>().join(" ")).trim_end().to_string());
+                obs.push(format!("w:{written}:{}", hex(&accepted)));
+            }
             Op::Read(sch, exact) => {
                 let total: usize = sch.iter().map(|r| if let R::Data(d) = r { d.len() } else { 0 }).sum();
                 { let mut s = shared.lock().unwrap(); s.rsched = sch.iter().cloned().collect(); s.produced.clear(); }
@@ -165,6 +187,27 @@ impl<S: AsyncWrite + Unpin> AsyncWrite for CountingWriter<'_, S> {
     }
     fn poll_flush(mut self: Pin<&mut Self>, cx: &mut Context<'_>) -> Poll<std::io::Result<()>> { Pin::new(&mut *self.inner).poll_flush(cx) }
     fn poll_shutdown(mut self: Pin<&mut Self>, cx: &mut Context<'_>) -> Poll<std::io::Result<()>> { Pin::new(&mut *self.inner).poll_shutdown(cx) }
+    // forward the vectored entry point as such (the default would route it through poll_write of this wrapper)
+    fn poll_write_vectored(mut self: Pin<&mut Self>, cx: &mut Context<'_>, bufs: &[std::io::IoSlice<'_>]) -> Poll<std::io::Result<usize>> {
+        let r = Pin::new(&mut *self.inner).poll_write_vectored(cx, bufs);
+        if let Poll::Ready(Ok(k)) = &r { *self.n.lock().unwrap() += *k; }
+        r
+    }
+    fn is_write_vectored(&self) -> bool { self.inner.is_write_vectored() }
+}
+
+/// `write_all` for a list of slices, through `write_vectored`
+async fn write_all_vectored<S: AsyncWrite + Unpin>(w: &mut S, parts: &[Vec<u8>]) -> std::io::Result<()> {
+    let (mut i, mut off) = (0usize, 0usize);
+    while i < parts.len() {
+        if off >= parts[i].len() { i += 1; off = 0; continue; }
+        let mut slices = vec![std::io::IoSlice::new(&parts[i][off..])];
+        for p in &parts[i + 1..] { slices.push(std::io::IoSlice::new(p)); }
+        let mut n = w.write_vectored(&slices).await?;
+        if n == 0 { return Err(std::io::ErrorKind::WriteZero.into()); }
+        while n > 0 && i < parts.len() { let left = parts[i].len() - off; if n >= left { n -= left; i += 1; off = 0; } else { off += n; n = 0; } }
+    }
+    Ok(())
 }
 
 fn parse_session(line: &str) -> Option<Vec<Op>> {
@@ -202,6 +245,18 @@ pub fn run(a: &Args) {
             if rng.chance(3, 5) {
                 let len = match rng.below(6) { 0 => 1, 1 => 2, 2 => 17, _ => rng.range(1, max_len) as usize };
                 let plain = rng.bytes(len);
+                if rng.chance(1, 6) {
+                    // vectored: 1–4 slices (some empty), one byte accepted per poll, a few Pendings
+                    let len = len.min(200);
+                    let plain = &plain[..len];
+                    let mut parts: Vec<Vec<u8>> = vec![];
+                    let mut at = 0;
+                    while at < len { let k = rng.range(0, (len - at).min(64) as u64) as usize; parts.push(plain[at..at + k].to_vec()); at += k; if parts.len() >= 3 { parts.push(plain[at..].to_vec()); at = len; } }
+                    let mut sch = vec![];
+                    for _ in 0..len { if rng.chance(1, 8) { sch.push(W::Pending); } sch.push(W::Accept(1)); }
+                    ops.push(Op::WriteV(parts, sch)); class.push("v");
+                    continue;
+                }
                 let sch = gen_wsched(&mut rng, len);
                 ops.push(Op::Write(plain, sch)); class.push("w");
             } else {
